@@ -64,10 +64,10 @@ func (p *c17) Init(tier string) {
 	if tier == "thorough" {
 		n = 4
 	}
-	p.idents = allStrings([]string{"a", "b", " ", "'", "[", "]", ".", "0"}, n)
-	p.lits = allStrings([]string{"a", " ", "\"", "'", "`", "\\", "[", "]"}, n)
+	p.idents = allStrings([]string{"a", "b", " ", "'", "[", "]", ".", "0", "é"}, n)
+	p.lits = allStrings([]string{"a", " ", "\"", "'", "`", "\\", "[", "]", "ë"}, n)
 	// array expressions: all nestings of depth <= 3 with <= 3 (thorough 4) elements per level (bounded)
-	elems := []string{"1", "'x'", "a", "'[y]'"}
+	elems := []string{"1", "'x'", "a", "'[y]'", "'é'"}
 	var gen func(depth int) []string
 	gen = func(depth int) []string {
 		var inner []string
@@ -318,7 +318,9 @@ func (p *c17) RunCase(i int) *core.CaseResult {
 		br := p.arrays[c.idx]
 		fn := strings.NewReplacer("[", "ARRAY(", "]", ")").Replace(strings.ReplaceAll(br, "'[y]'", "\x00"))
 		fn = strings.ReplaceAll(fn, "\x00", "'[y]'")
-		for _, tmpl := range []string{"SELECT %s AS v, `arr[0]` AS w FROM t", "SELECT `arr[0]` AS w, '[z]' AS l, %s AS v FROM t", "SELECT id FROM t WHERE FIRST(%s) = 1 AND b != '[]'"} {
+		for _, tmpl := range []string{"SELECT %s AS v, `arr[0]` AS w FROM t", "SELECT `arr[0]` AS w, '[z]' AS l, %s AS v FROM t", "SELECT id FROM t WHERE FIRST(%s) = 1 AND b != '[]'",
+			// multi-byte characters before, between and after the brackets (offsets are byte offsets)
+			"SELECT 'Zoë' AS who, %s AS v FROM t", "SELECT a AS `größe`, %s AS v, 'ж' AS z FROM t"} {
 			canon := fmt.Sprintf(tmpl, fn)
 			idi := fmt.Sprintf(tmpl, br)
 			a := gq.Run(c17Doc(), canon)
@@ -367,7 +369,7 @@ func (p *c17) RunCase(i int) *core.CaseResult {
 
 func (p *c17) Meta() core.Meta {
 	return core.Meta{
-		Rule:        "identifier cases: every string of length 1..3 (thorough 4) over {a,b,space,',[,],.,0} as a double-quoted identifier under PostgresEscapingDialect vs the same backtick identifier without it, in 5 clause positions, with and without IdiomaticArrays; literal cases: every string of length 1..3 (thorough 4) over {a,space,\",',`,\\,[,]} as a string literal (echo and WHERE operand) and as a backtick alias under the three non-trivial option combinations; array cases: every bracket expression of depth <= 2 (thorough 3) over elements {1,'x',a,'[y]',nested} vs the ARRAY(...) spelling, next to a backtick selector with brackets and a literal with brackets; wrapped cases: 15 queries (paths, joins, CTE, subqueries with <-, EXISTS, UNION, missing path) on {root: doc} vs doc with Wrapped(), under 4 option combinations. Oracle: both executions return the same rows or both fail; literal and alias contents are compared with the expected value directly. non-trivial = the canonical execution succeeded / the string contains a special character",
+		Rule:        "identifier cases: every string of length 1..3 (thorough 4) over {a,b,space,',[,],.,0,é} as a double-quoted identifier under PostgresEscapingDialect vs the same backtick identifier without it, in 5 clause positions, with and without IdiomaticArrays; literal cases: every string of length 1..3 (thorough 4) over {a,space,\",',`,\\,[,],ë} as a string literal (echo and WHERE operand) and as a backtick alias under the three non-trivial option combinations; array cases: every bracket expression of depth <= 2 (thorough 3) over elements {1,'x',a,'[y]','é',nested} vs the ARRAY(...) spelling, next to a backtick selector with brackets, a literal with brackets, and literals / aliases with multi-byte characters before and after the brackets; wrapped cases: 15 queries (paths, joins, CTE, subqueries with <-, EXISTS, UNION, missing path) on {root: doc} vs doc with Wrapped(), under 4 option combinations. Oracle: both executions return the same rows or both fail; literal and alias contents are compared with the expected value directly. non-trivial = the canonical execution succeeded / the string contains a special character",
 		Assumptions: []string{"double quotes inside double-quoted identifiers are outside the enumerated alphabet (the property fixes no escape for them)", "a panic on both sides is C10's matter and is not counted as an option-induced difference"},
 		Bounds:      map[string]any{"identifiers": len(p.idents), "literals": len(p.lits), "array_expressions": len(p.arrays), "wrapped_queries": len(p.queries)},
 		Exhaustive:  true,
